@@ -1,6 +1,6 @@
 (* C06 — case type and the two boolean functions evaluated on generated cases. *)
 From Coq Require Import List Bool ZArith.
-From V Require Import C01.Model C06.Model C06.Search C06.LexCheck.
+From V Require Import C01.Model C06.Model C06.LookAhead C06.Search C06.Lcs C06.LexCheck.
 Import ListNotations.
 Open Scope Z_scope.
 
@@ -20,14 +20,17 @@ Fixpoint corr (k : case) : bool :=
   match k with
   | CSession steps => forallb corr steps
   | CIso P G sym cs base impl =>
-      asym cs && sets_equal (find_isomorphisms P G cs (fun l _ => hd 0 l)) impl
+      asym cs && sets_equal (find_isomorphisms_la P G cs (fun l _ => hd 0 l)) impl
       (* certificate for the lex-leader theorem: the automorphisms form a group and the constraints are those of a
          stabiliser chain over the proposed base (then exactly one member of every class satisfies them) *)
       && match base with
          | Some b => let A := autos P in groupb (keys P) A && chainb (keys P) A cs b
          | None => true
          end
-  | CLcs P G sym impl => forallb (is_common P G) impl
+  | CLcs P G sym impl =>
+      forallb (is_common P G) impl
+      (* without symmetry the shrinking search is modelled: same set of mappings *)
+      && (if sym then true else sets_equal (largest_common_subgraph P G (fun l _ => hd 0 l)) impl)
   end.
 
 Fixpoint prop (k : case) : bool :=
